@@ -56,7 +56,10 @@ def cases(rng, tier):
         v = rng.choice(["v1shots", "v1shots", "v1free", "v2"])
         payload = {"labels": labels, "form": form, "nobs": nobs, "subobs": subobs, "coeffs": coeffs,
                    "variant": v, "seed": rng.randrange(1 << 30), "drop": rng.random() < 0.08,
-                   "strkeys": rng.random() < 0.25}
+                   "strkeys": rng.random() < 0.25,
+                   # the results dict / the observables dict may have been filled in any order of the labels
+                   "rot_results": rng.randrange(nparts) if rng.random() < 0.6 else 0,
+                   "rot_obs": rng.randrange(nparts) if rng.random() < 0.3 else 0}
         yield ("reconstruct", payload)
     m = 150 if tier == "quick" else 3000
     for t in range(m):
@@ -155,6 +158,13 @@ def _build(payload):
     return labels, subobs, results, wc, subs
 
 
+def _rot(d, k):
+    """the same dict, filled starting from the k-th key"""
+    keys = list(d)
+    k %= max(1, len(keys))
+    return {key: d[key] for key in keys[k:] + keys[:k]}
+
+
 def _cog(payload):
     from qiskit.quantum_info import Pauli
     from qiskit_addon_cutting.utils.observable_grouping import CommutingObservableGroup
@@ -178,7 +188,7 @@ def run_real(kind, payload):
         if payload["form"] == "single":
             out = reconstruct_expectation_values(results[labels[0]], wc, subobs[labels[0]])
         else:
-            out = reconstruct_expectation_values(results, wc, subobs)
+            out = reconstruct_expectation_values(_rot(results, payload.get("rot_results", 0)), wc, _rot(subobs, payload.get("rot_obs", 0)))
         return {"ok": [frac(x) for x in out]}
     out = _process_outcome(_cog(payload), payload["outcome"])
     return {"ok": [int(x) for x in out]}
@@ -262,7 +272,7 @@ def oracle(kind, payload):
         if payload["form"] == "single":
             got = reconstruct_expectation_values(results[labels[0]], wc, subobs[labels[0]])
         else:
-            got = reconstruct_expectation_values(results, wc, subobs)
+            got = reconstruct_expectation_values(_rot(results, payload.get("rot_results", 0)), wc, _rot(subobs, payload.get("rot_obs", 0)))
     except ValueError:
         return None if bad_count else "ValueError on well-formed input"
     except Exception as ex:
